@@ -251,9 +251,12 @@ def step (d : D) (line : String) : D × String :=
         | some m =>
           let want := capsOfMask m
           let got := s.vs.caps.toList
-          -- explicitWidth (index 16) depends on the cursor-position probe, noZWJ (2) on quirks: not compared
+          -- explicitWidth = the probe was answered with column 2 (mask bit 15; with a tiny event queue the answer may
+          -- be stuck behind a full queue until the 50 ms time-out: not compared then); noZWJ = the quirk of a terminal
+          -- identifying as kitty (the fake console identifies as "fake 1.0": false)
+          let smallQ := (kv rest "queue").getD "0" != "0"
           let cmp : List (String × Bool × Bool) := (Caps.fieldNames.zip (want.zip got)).filter
-            fun (x : String × Bool × Bool) => x.1 != "explicitWidth" && x.1 != "noZWJ" && x.2.1 != x.2.2 &&
+            fun (x : String × Bool × Bool) => !(x.1 == "explicitWidth" && smallQ) && x.2.1 != x.2.2 &&
               -- the OSC 176 reply is posted with the non-blocking PostEvent: with a tiny queue it may be dropped
               !(x.1 == "osc176" && (kv rest "queue").getD "0" != "0")
           match cmp with
